@@ -11,7 +11,7 @@ import (
 
 func init() {
 	sim.Register(&sim.Prop{
-		ID: "C16", Run: runC16, QuickRuns: 10000, ThoroughRuns: 150000,
+		ID: "C16", Run: runC16, QuickRuns: 10000, ThoroughRuns: 100000,
 		Rule:       "Each run: a history of 1..60 (thorough: up to 1500, enough to wrap the 1 MiB span several times) string/binary decodes with the buffer readers and with the stream reader over a simulated Source, lengths across the span allocator's classes (0, <128B, 128B..128KiB, larger); every decoded value is retained; after each batch tape-chosen disturbances: overwrite the input buffer, Release the stream reader so its buffer is recycled (poisoned / taken by the co-tenant), append to and write through returned byte slices. The same pre-generated history is executed with the span cache disabled and enabled and the result sequences are compared.",
 		Components: realComponents,
 		Probes:     []string{"len_0", "len_lt_128", "len_128_to_128k", "len_gt_128k", "input_overwritten", "reader_released", "append_to_result", "write_through_result", "span_enabled_runs", "repeated_value"},
